@@ -750,7 +750,13 @@ fn pipe_case(r: &mut Rng) -> Case {
     let n = r.below(8);
     let mut seq: Vec<&str> = vec![];
     // one run in four: the whole step-by-step simplex preset
-    if r.chance(1, 4) { seq = vec!["CompilerPipe", "PreModelPipe", "ModelPipe", "LinearModelPipe", "StandardLinearModelPipe", "TableauPipe", "StepByStepSimplexPipe"]; }
+    if r.chance(1, 2) {
+        seq = vec!["CompilerPipe", "PreModelPipe", "ModelPipe", "LinearModelPipe"];
+        match r.below(5) {
+            0 | 1 => seq.extend(["StandardLinearModelPipe", "TableauPipe", "StepByStepSimplexPipe"]),
+            2 => seq.push("RealSolver"), 3 => seq.push("MILPSolverPipe"), _ => seq.push("AutoSolverPipe"),
+        }
+    }
     for _ in 0..(if seq.is_empty() { n } else { r.below(2) }) {
         let ok = next_ok(seq.last().copied().unwrap_or(""));
         if !ok.is_empty() && r.chance(5, 6) { seq.push(*r.pick(&ok)); } else { seq.push(*r.pick(&names)); }
@@ -765,6 +771,10 @@ fn pipe_case(r: &mut Rng) -> Case {
         "max x\ns.t.\n    c: x >= 1\ndefine\n    x as NonNegativeReal",
         "min x\ns.t.\n    c: x >= 2\n    d: x <= 1\ndefine\n    x as NonNegativeReal",
         "min x\ns.t.\n    c: x < 2\ndefine\n    x as NonNegativeReal",
+        "max x + y\ns.t.\n    c: x + y <= 1\n    d: x + y >= 3\ndefine\n    x as NonNegativeReal\n    y as NonNegativeReal",
+        "min y\ns.t.\n    c: y = 2\n    d: y = 5\ndefine\n    y as NonNegativeReal",
+        "max x + y\ns.t.\n    c: x - y <= 1\ndefine\n    x as NonNegativeReal\n    y as NonNegativeReal",
+        "min x\ns.t.\n    c: x > 1\ndefine\n    x as NonNegativeReal",
         "min x + y\ns.t.\n    c: x + y >= 1\ndefine\n    x as Boolean\n    y as NonNegativeReal",
     ];
     let ti = r.below(texts.len());
